@@ -31,11 +31,24 @@ def replay_bin():
     """build (once per process) the replay binary against /repo's current tree"""
     with _build_lock:
         tgt = os.path.join(VERIF, 'out', 'replay-target')
+        crate = os.path.join(VERIF, 'replay')
+        repo = os.environ.get('VERIF_REPO', '/repo')
+        if repo != '/repo':
+            # a second tree (regressions run side by side): a copy of the replay crate whose path dependencies point there
+            import hashlib
+            import shutil
+            tag = hashlib.md5(repo.encode()).hexdigest()[:8]
+            tgt = os.path.join(VERIF, 'out', 'replay-target-' + tag)
+            alt = os.path.join(VERIF, 'out', 'replay-crate-' + tag)
+            if not _built[0]:
+                shutil.rmtree(alt, ignore_errors=True)
+                shutil.copytree(crate, alt)
+                mt = open(os.path.join(alt, 'Cargo.toml')).read().replace('"/repo/', '"%s/' % repo.rstrip('/'))
+                open(os.path.join(alt, 'Cargo.toml'), 'w').write(mt)
+            crate = alt
         if not _built[0]:
-            lock = os.path.join(VERIF, 'replay', 'Cargo.lock')
-            repo = os.environ.get('VERIF_REPO', '/repo')
             env = dict(os.environ, CARGO_NET_OFFLINE='true', CARGO_TARGET_DIR=tgt)
-            p = subprocess.run(['cargo', 'build', '--offline', '--manifest-path', os.path.join(VERIF, 'replay', 'Cargo.toml')],
+            p = subprocess.run(['cargo', 'build', '--offline', '--manifest-path', os.path.join(crate, 'Cargo.toml')],
                                capture_output=True, text=True, env=env)
             if p.returncode != 0:
                 raise RuntimeError('replay build failed: ' + p.stderr[-1500:])
